@@ -10,7 +10,7 @@
     has been applied"; [applied_cap] = realCapacity - pending deltas + queued shrinks. *)
 From EG.lib Require Import Base.
 From EG.model Require Import Sem.
-From EG.proofs Require Import SemProofs SemProofs2 SemProofs3 SemProofs4.
+From EG.proofs Require Import SemProofs SemProofs2 SemProofs3 SemProofs4 SemProofs5.
 Open Scope Z_scope.
 
 (** accounting invariant of the pre-acquired semaphore, in every reachable state *)
@@ -41,6 +41,20 @@ Theorem C17_http_cap : forall sz n ls, 0 < sz -> 0 <= n -> Forall label_ok ls ->
   (forall l c, In c (opened s) -> l <> LClose c -> In c (opened (lstep ideal s l))).
 Proof. exact T_http_cap. Qed.
 Print Assumptions C17_http_cap.
+
+(** HTTPServer runtime: after ANY history of accepts, closes, hot reloads of maxConnections,
+    SetMaxCount goroutines (any order) and listener replacements ([RRestart]: a reload that needs
+    a restart, or the recovery of a failed server - the listener is rebuilt from the spec in
+    force), the listener's realCapacity is the LAST configured maxConnections (clamped to
+    maxCapacity) - a function of the latest spec only, not of the path of restarts - and in
+    every settled state the permits in use are within it *)
+Theorem C17_cap_follows_latest_spec : forall sz n ls,
+  0 < sz -> 0 <= n -> Forall rlabel_ok ls ->
+  let r := rrun sz (rinit sz n) ls in
+  real (r_l r) = Z.min (last_spec n ls) sz /\
+  (settled (r_l r) = true -> used (r_l r) <= Z.min (last_spec n ls) sz).
+Proof. exact cap_is_last_configured. Qed.
+Print Assumptions C17_cap_follows_latest_spec.
 
 (** capacity released by a closed connection is usable again: in a settled state nobody
     waits while a permit is free; a Close hands the permit to the longest waiting acceptor
